@@ -36,7 +36,8 @@ func (c *Context) Render(status int, name string, data any) (err error) {
 
 // ShouldRender render and response to client
 func (c *Context) ShouldRender(status int, obj any, renderer render.Renderer) error {
-	c.SetStatus(status)
+	// Notice: the status goes where the body goes. c.Resp may have been replaced by a middleware.
+	c.Resp.WriteHeader(status)
 	return renderer.Render(c.Resp, obj)
 }
 
@@ -47,7 +48,8 @@ func (c *Context) MustRender(status int, obj any, renderer render.Renderer) {
 
 // Respond render and response to client
 func (c *Context) Respond(status int, obj any, renderer render.Renderer) {
-	c.SetStatus(status)
+	// Notice: the status goes where the body goes. c.Resp may have been replaced by a middleware.
+	c.Resp.WriteHeader(status)
 
 	err := renderer.Render(c.Resp, obj)
 	if err != nil {
